@@ -1,2 +1,132 @@
--- driver stub for C13: replaced by the real line-protocol driver
-def main : IO Unit := pure ()
+import Bermuda.Model.Json
+import Bermuda.Model.Accessors
+import Bermuda.Spec.C13
+open Lean Bermuda
+
+/-! Line-protocol driver for C13. One request per triangle:
+`{"cells":[...], "units":["month",...], "impl":{accessor: output, ...}}` →
+`{"t":…, "model":{accessor: output}, "spec":{clause: bool|null}, "taxonomy":{…}}`. -/
+
+def intJ (i : Int) : Json := Json.num (JsonNumber.fromInt i)
+def listJ {α} (f : α → Json) (l : List α) : Json := Json.arr (l.map f).toArray
+def periodJ (p : Period) : Json := Json.arr #[p.1.toJson, p.2.toJson]
+def countsJ (l : List (String × Nat)) : Json := listJ (fun (p : String × Nat) => Json.arr #[Json.str p.1, (p.2 : Nat)]) l
+
+def listF {α} (f : Json → Except String α) (j : Json) : Except String (List α) := do
+  (← j.getArr?).toList.mapM f
+
+def periodF (j : Json) : Except String Period := do
+  let a ← j.getArr?
+  if a.size != 2 then throw "period: want [start, end]"
+  return (← Date.fromJson a[0]!, ← Date.fromJson a[1]!)
+
+def countsF (j : Json) : Except String (List (String × Nat)) :=
+  listF (fun e => do
+    let a ← e.getArr?
+    if a.size != 2 then throw "count: want [field, n]"
+    return (← a[0]!.getStr?, ← a[1]!.getNat?)) j
+
+/-- `impl[k]` when present and non-null; for accessors that may raise, `impl[k] = {"ok": x}` -/
+def implVal (impl : Json) (k : String) (wrapped : Bool := false) : Option Json :=
+  match impl.getObjVal? k with
+  | .ok v =>
+    if v.isNull then none
+    else if wrapped then
+      match v.getObjVal? "ok" with
+      | .ok x => some x
+      | .error _ => none
+    else some v
+  | .error _ => none
+
+def specOn {α} (impl : Json) (k : String) (wrapped : Bool) (parse : Json → Except String α)
+    (spec : α → Bool) : Except String Json :=
+  match implVal impl k wrapped with
+  | some x => do return Json.bool (spec (← parse x))
+  | none => .ok Json.null
+
+def optIntJ : Option Int → Json
+  | none => Json.null
+  | some i => intJ i
+
+def optIntF (j : Json) : Except String (Option Int) :=
+  if j.isNull then .ok none else (jInt? j).map some
+
+def handle (j : Json) : Except String Json := do
+  let cells ← cellsFromJson (← j.getObjVal? "cells")
+  let units ← listF (·.getStr?) (← j.getObjVal? "units")
+  let impl := (j.getObjVal? "impl").toOption.getD Json.null
+  match Triangle.ofCells cells with
+  | .error e => return Json.mkObj [("t", Json.mkObj [("err", Json.str e.name)])]
+  | .ok t =>
+    let metas := Triangle.metadata t
+    let perUnit (f : Option LagUnit → Json) : Json :=
+      Json.mkObj (units.map fun u => (u, f (LagUnit.parse? u)))
+    let model := Json.mkObj [
+      ("periods", listJ periodJ (Triangle.periods t)),
+      ("evaluation_dates", listJ Date.toJson (Triangle.evaluationDates t)),
+      ("evaluation_date", exceptToJson Date.toJson (Triangle.evaluationDate t)),
+      ("dev_lags", perUnit fun u => exceptToJson (listJ ratToJson) (Triangle.devLags t u)),
+      ("fields", listJ Json.str (Triangle.fields t)),
+      ("metadata", listJ Metadata.toJson metas),
+      ("field_cell_counts", countsJ (Triangle.fieldCellCounts t)),
+      ("field_slice_counts", countsJ (Triangle.fieldSliceCounts t)),
+      ("num_samples", exceptToJson (fun (n : Nat) => (n : Json)) (Triangle.numSamples t)),
+      ("experience_gaps", listJ periodJ (Triangle.experienceGaps t)),
+      ("common_metadata", exceptToJson Metadata.toJson (Triangle.commonMetadata t)),
+      ("metadata_differences", exceptToJson (listJ Metadata.toJson) (Triangle.metadataDifferences t)),
+      ("is_disjoint", Json.bool (Triangle.isDisjoint t)),
+      ("is_semi_regular", perUnit fun u => exceptToJson Json.bool (Triangle.isSemiRegular t u)),
+      ("is_regular", perUnit fun u => exceptToJson Json.bool (Triangle.isRegular t u)),
+      ("period_resolution", exceptToJson optIntJ (Triangle.periodResolution t)),
+      ("eval_date_resolution", exceptToJson optIntJ (Triangle.evalDateResolution t))]
+    -- the independent taxonomy (Spec definitions), to be compared with the implementation's booleans
+    let taxonomy := Json.mkObj [
+      ("is_disjoint", Json.bool (Spec.C13.disjoint t)),
+      ("is_semi_regular", perUnit fun u => match u with
+        | some u => Json.bool (Spec.C13.semiRegular t u)
+        | none => Json.null),
+      ("is_regular", perUnit fun u => match u with
+        | some u => Json.bool (Spec.C13.regular t u)
+        | none => Json.null)]
+    -- Spec predicates on the implementation's outputs
+    let lagSpecs ← units.mapM fun u => do
+      match LagUnit.parse? u, (impl.getObjVal? "dev_lags").toOption.bind (implVal · u true) with
+      | some lu, some x =>
+        let out ← listF ratFromJson x
+        pure (u, Json.bool (Spec.C13.sortedDistinct ratCmp (t.map (·.devLag lu)) out))
+      | _, _ => pure (u, Json.null)
+    let implMetas : Option (List Metadata) :=
+      (implVal impl "metadata").bind fun x => (listF Metadata.fromJson x).toOption
+    let spec := Json.mkObj [
+      ("periods", ← specOn impl "periods" false (listF periodF)
+        (Spec.C13.sortedDistinct periodCmp (t.map Cell.period))),
+      ("evaluation_dates", ← specOn impl "evaluation_dates" false (listF Date.fromJson)
+        (Spec.C13.sortedDistinct Date.cmp (t.map (·.ev)))),
+      ("evaluation_date", ← specOn impl "evaluation_date" true Date.fromJson
+        (fun d => t.any (·.ev == d) && t.all (·.ev ≤ d))),
+      ("dev_lags", Json.mkObj lagSpecs),
+      ("fields", ← specOn impl "fields" false (listF (·.getStr?))
+        (Spec.C13.sortedDistinct strCmp (t.flatMap (·.values.keys)))),
+      ("metadata", ← specOn impl "metadata" false (listF Metadata.fromJson)
+        (Spec.C13.sortedDistinct Metadata.cmp (t.map (·.md)))),
+      ("field_cell_counts", ← specOn impl "field_cell_counts" false countsF
+        (Spec.C13.countsSpec (fun (c : Cell) => c.values.keys) t (t.flatMap (·.values.keys)))),
+      ("field_slice_counts", ← specOn impl "field_slice_counts" false countsF
+        (Spec.C13.countsSpec (fun (m : Metadata) => (t.filter (·.md == m)).flatMap (·.values.keys))
+          (t.map (·.md)).eraseDups (t.flatMap (·.values.keys)))),
+      ("experience_gaps", ← specOn impl "experience_gaps" false (listF periodF)
+        (fun out => !Spec.C13.disjoint t || Spec.C13.gapsSpec t out)),
+      ("common_metadata", ← specOn impl "common_metadata" true Metadata.fromJson
+        (Spec.C13.commonSpec (t.map (·.md)).eraseDups)),
+      ("metadata_differences", ←
+        match implVal impl "common_metadata" true, implMetas with
+        | some c, some ms => do
+          let c ← Metadata.fromJson c
+          specOn impl "metadata_differences" true (listF Metadata.fromJson) (Spec.C13.recombineSpec ms c)
+        | _, _ => pure Json.null),
+      ("period_resolution", ← specOn impl "period_resolution" true optIntF (Spec.C13.periodResolutionSpec t)),
+      ("eval_date_resolution", ← specOn impl "eval_date_resolution" true optIntF (Spec.C13.evalResolutionSpec t))]
+    return Json.mkObj [("t", Json.mkObj [("ok", cellsToJson t)]), ("model", model), ("spec", spec),
+                       ("taxonomy", taxonomy)]
+
+def main : IO Unit := serve handle
